@@ -915,6 +915,16 @@ class SVG:
 
         return self
 
+    def _dissolve_needless_groups(self) -> bool:
+        self._update_etree()
+        dissolved = False
+        for context in reversed(list(self.depth_first())):
+            if _is_group(context.element.tag) and _try_remove_group(context.element):
+                dissolved = True
+        if dissolved:
+            self.elements = None
+        return dissolved
+
     def evenodd_to_nonzero_winding(self, inplace=False):
         if not inplace:
             svg = self._clone()
@@ -1381,7 +1391,14 @@ class SVG:
 
         # https://github.com/googlefonts/picosvg/issues/269 remove empty subpaths *after* rounding
         self.remove_empty_subpaths(inplace=True)
-        self.remove_unpainted_shapes(inplace=True)
+        while True:
+            self.remove_unpainted_shapes(inplace=True)
+            # dropping shapes can leave groups that need not (and, by the picosvg rules,
+            # must not) be groups any more: fewer than two children or nothing visible
+            if not self._dissolve_needless_groups():
+                break
+            # a dissolved group pushed its opacity down onto its child
+            self.round_floats(ndigits, inplace=True)
 
         violations = self.checkpicosvg(
             allow_text=allow_text, drop_unsupported=drop_unsupported
